@@ -71,6 +71,11 @@ func vC15step(withRef bool) {
 	vAssert("no-warrior-terminate-inside-task", rec.nWarTerm == 0)
 	vObserveSim(s)
 	vObserve("nTaskTerm", uint64(rec.nTaskTerm))
+	for a := Address(0); a < M; a++ {
+		vObserveBool("written", rec.written[a])
+		vObserveBool("inc", rec.inc[a])
+		vObserveBool("dec", rec.dec[a])
+	}
 	vReach("end")
 }
 
